@@ -110,15 +110,19 @@ Fixpoint periodic (q last t0 : Z) (es : list wev) : bool :=
   | WAnswer t :: r => (t0 <=? t) && (t <=? last + q) && periodic q last t r
   end.
 
-(* every probe is answered before the next poll: after a WPoll that probed, the
-   next event is a WAnswer *)
-Fixpoint answered_before_next_poll (rt : Z) (w : wd) (es : list wev) : bool :=
+(* every probe is answered before the next poll ([pending]: the last poll probed and no
+   answer has been processed since) *)
+Fixpoint answered_each (rt : Z) (w : wd) (pending : bool) (es : list wev) : bool :=
   match es with
   | [] => true
   | e :: r =>
       let '(w', o) := wd_step rt w e in
-      match o, r with
-      | WdProbe, WPoll _ :: _ => false
-      | _, _ => answered_before_next_poll rt w' r
+      match e with
+      | WPoll _ => negb pending && answered_each rt w' (match o with WdProbe => true | _ => false end) r
+      | WAnswer _ => answered_each rt w' false r
       end
   end.
+
+(* the instants last+q, last+2q, ... (k of them) *)
+Fixpoint chain (q last : Z) (k : nat) : list Z :=
+  match k with O => [] | S k' => (last + q) :: chain q (last + q) k' end.
